@@ -3,6 +3,9 @@ package main
 // C10: tokens are format-preserving, reversible for the owner, and consistent.
 // The REAL pseudonymization tokenizer runs over the memory and BoltDB stores, with and without the
 // encrypting wrapper, through the typed API, TranslatorService.Tokenize/Detokenize and DataTokenizer.
+// Besides the random histories, every token type x store kind gets the maintenance families
+// "tokenize -> acra-tokens disable -> tokenize again -> enable -> tokenize -> detokenize" and
+// "tokenize -> remove -> tokenize twice -> detokenize" (c10MaintenanceFamilies).
 // A scenario (history on an empty store) is one case replayed on Model.RunTokens; the oracles below
 // judge the implementation on their own (shape, reversibility, foreign client, consistency - also
 // under chosen interleavings of concurrent calls -, two values one token).
@@ -166,10 +169,120 @@ type tokEnv struct {
 	outs    [][]byte
 	desc    []string
 	issued  map[string][]byte // ctx|ty|token -> value
-	consist map[string][]byte // ctx|ty|value -> token (consistent mode)
+	// consistency oracle: ctx|ty|value -> the oracle's own shadow of the value->token ("h.") record
+	// (token handed out, stored length, disabled flag); see c10Cons / consistRule
+	consist map[string]*c10Cons
 	hist    []tokIssued
-	// maintenance seen so far (weakens the oracles, see below)
-	disabledSince, removedSince bool
+	// maintenance seen so far (weakens the reversibility / two-values oracles, see below)
+	disabledSince bool           // some record may be disabled right now
+	issuedAt      map[string]int // ctx|ty|token -> position in the history where it was FIRST issued (markIssued)
+	removedAt     int            // position of the last maintenance pass that removed records (-1: none)
+}
+
+// c10Cons is what the consistency oracle remembers about one (context, type, value): the token that the
+// last successful consistent tokenization returned, and - kept by the oracle itself from the maintenance
+// passes it issued, never read back from the store - the length of the stored value->token record and
+// whether a maintenance pass disabled it.
+//
+// THE RULE (class "inconsistent-token"): within one client context and token type, every successful
+// consistent tokenization of a value must return the token of the previous successful consistent
+// tokenization of that value - across any number of enable/disable maintenance passes and no matter
+// whether the record is disabled at that moment (while disabled an error is acceptable, a different
+// token is not) - unless a maintenance pass in between applied TokenRemove to the value->token record
+// of that value; then the claim starts again with the next token handed out.
+// This is C10_consistent_same_token (every event list with enable/disable maintenance, premise
+// no_remove) together with C10_consistency_needs_no_removal_refuted (removal does change the token).
+type c10Cons struct {
+	tok      []byte
+	hlen     int // data length of the h-record as VisitMetadata reports it without the encrypting wrapper
+	disabled bool
+}
+
+// removedSince: was the token (ctx|ty|token key) issued before the last removing maintenance pass?
+func (e *tokEnv) removedSince(tokKey string) bool {
+	at, ok := e.issuedAt[tokKey]
+	return e.removedAt >= 0 && (!ok || at <= e.removedAt)
+}
+
+// typed <-> column text form of a token (decimal for the integer types)
+func c10Text(ty int, typed []byte) []byte {
+	switch ty {
+	case tInt32:
+		return []byte(fmt.Sprint(int32(binary.LittleEndian.Uint32(typed))))
+	case tInt64:
+		return []byte(fmt.Sprint(int64(binary.LittleEndian.Uint64(typed))))
+	}
+	return typed
+}
+func c10Typed(ty int, text []byte) []byte {
+	if ty == tInt32 || ty == tInt64 {
+		z, ok := parseDecimal(text)
+		if !ok {
+			return text
+		}
+		if ty == tInt32 {
+			return i32(int32(z.Int64()))
+		}
+		return i64(z.Int64())
+	}
+	return text
+}
+
+// markIssued remembers when a token was FIRST handed out (typed and column-text bookkeeping share the
+// stored records). A consistent call that reads an old token back does not refresh the position: its
+// token record may have been removed by an earlier partial maintenance pass, about which the
+// reversibility oracle makes no claim.
+func (e *tokEnv) markIssued(c tctx, ty int, typed []byte) {
+	for _, k := range []string{ikey(c, ty, typed), "dt|" + ikey(c, ty, c10Text(ty, typed))} {
+		if _, ok := e.issuedAt[k]; !ok {
+			e.issuedAt[k] = len(e.desc)
+		}
+	}
+}
+
+// consistRule applies THE RULE to a successful consistent tokenization.
+func (e *tokEnv) consistRule(key string, tok []byte, hlen int, desc string) {
+	e.rep.OracleChecks++
+	if old, ok := e.consist[key]; ok {
+		if !bytes.Equal(old.tok, tok) {
+			state := "enabled"
+			if old.disabled {
+				state = "DISABLED by maintenance"
+			}
+			e.violate("inconsistent-token", fmt.Sprintf("%s: consistent tokenization returned %x, but the value already has the token %x in this context (its value->token record was never removed; it is %s now)", desc, tok, old.tok, state))
+		}
+		if old.disabled {
+			e.rep.Count("oracle:consistent-ok-while-disabled")
+		}
+		old.tok = tok // the disabled flag of the existing record is not changed by a tokenization
+		return
+	}
+	e.consist[key] = &c10Cons{tok: tok, hlen: hlen}
+}
+
+// consistVisit replays a maintenance pass on the oracle's shadow of the h-records.
+func (e *tokEnv) consistVisit(lens []int, all bool, aEn, aDis common.TokenAction) {
+	for k, ent := range e.consist {
+		hit := all
+		for _, l := range lens {
+			hit = hit || l == ent.hlen
+		}
+		if !hit {
+			continue
+		}
+		act := aEn
+		if ent.disabled {
+			act = aDis
+		}
+		switch act {
+		case common.TokenEnable:
+			ent.disabled = false
+		case common.TokenDisable:
+			ent.disabled = true
+		case common.TokenRemove:
+			delete(e.consist, k)
+		}
+	}
 }
 
 func encOutcome(o vh.Outcome) []byte {
@@ -237,16 +350,13 @@ func (e *tokEnv) judge(consistent bool, ty int, c tctx, v, tok []byte, chunks []
 		e.violate("token-shape", desc+": "+p)
 	}
 	e.rep.OracleChecks++
-	if old, ok := e.issued[ikey(c, ty, tok)]; ok && !bytes.Equal(old, v) && !e.removedSince {
+	if old, ok := e.issued[ikey(c, ty, tok)]; ok && !bytes.Equal(old, v) && !e.removedSince(ikey(c, ty, tok)) {
 		e.violate("two-values-one-token", fmt.Sprintf("%s: token %x was already issued for value %x in the same context", desc, tok, old))
 	}
 	e.issued[ikey(c, ty, tok)] = v
+	e.markIssued(c, ty, tok)
 	if consistent {
-		e.rep.OracleChecks++
-		if old, ok := e.consist[ikey(c, ty, v)]; ok && !bytes.Equal(old, tok) && !e.removedSince {
-			e.violate("inconsistent-token", fmt.Sprintf("%s: consistent tokenization returned %x, earlier %x", desc, tok, old))
-		}
-		e.consist[ikey(c, ty, v)] = tok
+		e.consistRule(ikey(c, ty, v), tok, len(tok), desc)
 	}
 	e.hist = append(e.hist, tokIssued{ty, c, v, tok, chunks})
 }
@@ -309,7 +419,7 @@ func (e *tokEnv) detok(ty int, c tctx, tok []byte, via int) vh.Outcome {
 // owner must get the original back (weakened after maintenance: disabled => value or token; removed => no claim)
 func (e *tokEnv) checkOwner(ty int, c tctx, v, tok []byte, via int) {
 	o := e.detok(ty, c, tok, via)
-	if e.removedSince {
+	if e.removedSince(ikey(c, ty, tok)) {
 		return
 	}
 	e.rep.OracleChecks++
@@ -321,8 +431,8 @@ func (e *tokEnv) checkOwner(ty int, c tctx, v, tok []byte, via int) {
 
 // another client / an unknown token must get the token itself
 func (e *tokEnv) checkStranger(class string, ty int, c tctx, tok []byte, via int) {
-	if _, ok := e.issued[ikey(c, ty, tok)]; ok {
-		return // by chance a token of that context as well
+	if _, ok := e.issuedAt[ikey(c, ty, tok)]; ok {
+		return // by chance a token of that context as well (handed out by the typed API or at the text boundary)
 	}
 	o := e.detok(ty, c, tok, via)
 	e.rep.OracleChecks++
@@ -411,21 +521,23 @@ func (e *tokEnv) dtTok(consistent bool, ty int, c tctx, text []byte) {
 	// text-level bookkeeping uses the canonical text
 	e.rep.OracleChecks++
 	k := "dt|" + ikey(c, ty, tok)
-	if old, ok := e.issued[k]; ok && !bytes.Equal(old, want) && !e.removedSince {
+	if old, ok := e.issued[k]; ok && !bytes.Equal(old, want) && !e.removedSince(k) {
 		e.violate("two-values-one-token", fmt.Sprintf("%s: column values %q and %q share the token %q", desc, old, want, tok))
 	}
 	e.issued[k] = want
+	e.markIssued(c, ty, c10Typed(ty, tok))
 	if consistent {
-		e.rep.OracleChecks++
-		kc := "dt|" + ikey(c, ty, want)
-		if old, ok := e.consist[kc]; ok && !bytes.Equal(old, tok) && !e.removedSince {
-			e.violate("inconsistent-token", fmt.Sprintf("%s: consistent tokenization returned %q, earlier %q", desc, tok, old))
+		hlen := len(tok) // the h-record holds the typed token: 4/8 bytes for the integer types
+		if ty == tInt32 {
+			hlen = 4
+		} else if ty == tInt64 {
+			hlen = 8
 		}
-		e.consist[kc] = tok
+		e.consistRule("dt|"+ikey(c, ty, want), tok, hlen, desc)
 	}
 	// owner reads the column back
 	d := e.dtDetok(ty, c, tok)
-	if !e.removedSince {
+	if !e.removedSince(k) {
 		e.rep.OracleChecks++
 		good := d.Kind == "ok" && (bytes.Equal(d.Vals[0], want) || (e.disabledSince && bytes.Equal(d.Vals[0], tok)))
 		if !good {
@@ -520,11 +632,14 @@ func (e *tokEnv) visit(lens []int, all bool, aEn, aDis common.TokenAction) {
 	}
 	e.ops = append(e.ops, fmt.Sprintf("Visit %s %s %s %s", natList(lens), b, actCoq[aEn], actCoq[aDis]))
 	e.desc = append(e.desc, fmt.Sprintf("maintenance lens=%v all=%v enabled->%s disabled->%s err=%v", lens, all, actCoq[aEn], actCoq[aDis], err))
+	e.consistVisit(lens, all, aEn, aDis)
 	if aEn == common.TokenDisable {
 		e.disabledSince = true
+	} else if all && (aDis == common.TokenEnable || aDis == common.TokenRemove) {
+		e.disabledSince = false // every disabled record was enabled or removed, no enabled one was disabled
 	}
 	if aEn == common.TokenRemove || aDis == common.TokenRemove {
-		e.removedSince = true
+		e.removedAt = len(e.desc)
 	}
 }
 
@@ -627,7 +742,7 @@ func newTokEnv(rep *vh.Report, r *vh.Rng, f *storeFactory, cfg string, ctxs []tc
 	for _, c := range ctxs {
 		clients = append(clients, c.cl)
 	}
-	e := &tokEnv{rep: rep, r: r, cfg: cfg, issued: map[string][]byte{}, consist: map[string][]byte{}}
+	e := &tokEnv{rep: rep, r: r, cfg: cfg, issued: map[string][]byte{}, consist: map[string]*c10Cons{}, issuedAt: map[string]int{}, removedAt: -1}
 	e.st = vh.NewTokStore(f.open(cfg, clients, r), r)
 	e.tk, _ = pseudonymization.NewPseudoanonymizer(e.st.For(-1))
 	e.dt, _ = pseudonymization.NewDataTokenizer(e.tk)
@@ -747,6 +862,171 @@ func allSchedules(counts []int) [][]int {
 	return out
 }
 
+// ---------- maintenance families (tokenize / acra-tokens disable|enable|remove / tokenize again) ----------
+
+// c10FamValue: a value of the type whose tokenization succeeds on every store kind (the encrypting
+// wrapper cannot store an empty original), boundary lengths included.
+func c10FamValue(r *vh.Rng, ty int) []byte {
+	for {
+		if v := genTokValue(r, ty, false); len(v) > 0 {
+			return v
+		}
+	}
+}
+
+// c10FamTok: one consistent tokenization of v through the chosen entry point (0 typed API,
+// 1 TranslatorService, 2 DataTokenizer on the column text); returns the typed token on success.
+func (e *tokEnv) c10FamTok(ty int, c tctx, v []byte, via int) ([]byte, bool) {
+	if via == 2 {
+		n := len(e.outs)
+		e.dtTok(true, ty, c, c10Text(ty, v))
+		if o := e.outs[n]; len(o) > 0 && o[0] == 0 {
+			return c10Typed(ty, o[1:]), true
+		}
+		return nil, false
+	}
+	o := e.tok(true, ty, c, v, nil, via)
+	if o.Kind != "ok" {
+		return nil, false
+	}
+	return o.Vals[0], true
+}
+
+// the three acra-tokens subcommands as VisitMetadata callbacks (no date limits)
+func (e *tokEnv) c10Disable(lens []int) { // acra-tokens disable
+	e.visit(lens, lens == nil, common.TokenDisable, common.TokenContinue)
+}
+func (e *tokEnv) c10Enable() { // acra-tokens enable
+	e.visit(nil, true, common.TokenContinue, common.TokenEnable)
+}
+
+// c10DisableFamily: tokenize consistently -> disable -> tokenize again (k times) -> enable -> tokenize
+// -> detokenize. Judged by THE RULE (consistRule) on every successful call and by the strict
+// reversibility oracle at the end (nothing is disabled any more, nothing was removed).
+func c10DisableFamily(rep *vh.Report, r *vh.Rng, f *storeFactory, cfg string, ty int, round int) {
+	ctxs := genCtxs(r)
+	e := newTokEnv(rep, r, f, cfg, ctxs)
+	c := ctxs[0]
+	if len(ctxs) > 2 && r.Intn(4) == 0 {
+		c = ctxs[2] // zone context
+	}
+	via := r.Intn(3)
+	rep.Count(fmt.Sprintf("family-disable:via%d", via))
+	v, w := c10FamValue(r, ty), c10FamValue(r, ty)
+	label := fmt.Sprintf("family disable #%d store=%s type=%s", round, cfg, ttCfg[ty])
+
+	t1, ok := e.c10FamTok(ty, c, v, via)
+	if !ok {
+		rep.Count("family-disable:first-tokenize-failed")
+		e.finish(label)
+		return
+	}
+	if r.Bool() {
+		e.c10FamTok(ty, c, v, via) // ordinary repeat
+	}
+	withW := !bytes.Equal(v, w) && r.Bool()
+	if withW {
+		e.c10FamTok(ty, c, w, via)
+	}
+	// disable: everything (what "acra-tokens disable" does) or, where the callback sees plaintext
+	// lengths, only records as long as the value->token record of v
+	var lens []int
+	if !strings.HasSuffix(cfg, "+enc") && r.Intn(3) == 0 {
+		lens = []int{len(t1)}
+		rep.Count("family-disable:scope-h-record-length")
+	} else {
+		rep.Count("family-disable:scope-all")
+	}
+	e.c10Disable(lens)
+	k := 1 + r.Intn(2)
+	rep.Count(fmt.Sprintf("family-disable:tokenize-while-disabled-x%d", k))
+	for i := 0; i < k; i++ {
+		e.c10FamTok(ty, c, v, via)
+	}
+	if r.Bool() { // the same value in another client context is not affected
+		e.c10FamTok(ty, ctxs[1], v, 0) // typed API
+	}
+	e.checkOwner(ty, c, v, t1, via%2) // disabled: value or the token itself
+	if r.Intn(3) == 0 {
+		e.c10Disable(nil) // disabling twice changes nothing
+	}
+	e.c10Enable()
+	e.c10FamTok(ty, c, v, via)
+	if withW {
+		e.c10FamTok(ty, c, w, via)
+	}
+	e.checkOwner(ty, c, v, t1, via%2) // strict again: the original
+	e.finish(label)
+}
+
+// c10RemoveFamily: tokenize consistently -> remove (all / only disabled ones after a disable) ->
+// tokenize again (a new token is allowed exactly now) -> tokenize again (must repeat the new token)
+// -> detokenize new and old token.
+func c10RemoveFamily(rep *vh.Report, r *vh.Rng, f *storeFactory, cfg string, ty int, round int) {
+	ctxs := genCtxs(r)
+	e := newTokEnv(rep, r, f, cfg, ctxs)
+	c := ctxs[0]
+	if len(ctxs) > 2 && r.Intn(4) == 0 {
+		c = ctxs[2]
+	}
+	via := r.Intn(3)
+	rep.Count(fmt.Sprintf("family-remove:via%d", via))
+	v := c10FamValue(r, ty)
+	label := fmt.Sprintf("family remove #%d store=%s type=%s", round, cfg, ttCfg[ty])
+
+	t1, ok := e.c10FamTok(ty, c, v, via)
+	if !ok {
+		rep.Count("family-remove:first-tokenize-failed")
+		e.finish(label)
+		return
+	}
+	switch r.Intn(3) {
+	case 0: // acra-tokens remove --all
+		rep.Count("family-remove:all")
+		e.visit(nil, true, common.TokenRemove, common.TokenRemove)
+	case 1: // acra-tokens disable; (tokenize: refused); acra-tokens remove --only-disabled
+		rep.Count("family-remove:disable-then-only-disabled")
+		e.c10Disable(nil)
+		if r.Bool() {
+			e.c10FamTok(ty, c, v, via)
+		}
+		e.visit(nil, true, common.TokenContinue, common.TokenRemove)
+	default: // remove --only-disabled with nothing disabled removes nothing: the token must stay
+		rep.Count("family-remove:only-disabled-noop-then-all")
+		e.visit(nil, true, common.TokenContinue, common.TokenRemove)
+		e.c10FamTok(ty, c, v, via)
+		e.visit(nil, true, common.TokenRemove, common.TokenRemove)
+	}
+	t2, ok2 := e.c10FamTok(ty, c, v, via)
+	e.c10FamTok(ty, c, v, via)
+	if ok2 {
+		e.checkOwner(ty, c, v, t2, via%2)
+		if !bytes.Equal(t1, t2) { // the removed token is an unknown token now: it comes back as it is
+			o := e.detok(ty, c, t1, via%2)
+			rep.OracleChecks++
+			if !(o.Kind == "ok" && bytes.Equal(o.Vals[0], t1)) {
+				e.violate("removed-token-resolves", fmt.Sprintf("%s detokenizes the removed %s token %x (of value %x) and gets %s", c, ttCfg[ty], t1, v, o))
+			}
+		}
+	}
+	e.finish(label)
+}
+
+func c10MaintenanceFamilies(rep *vh.Report, r *vh.Rng, f *storeFactory, thorough bool) {
+	rounds := 1
+	if thorough {
+		rounds = 6
+	}
+	for round := 0; round < rounds; round++ {
+		for _, cfg := range storeCfgs {
+			for ty := range ttCfg {
+				c10DisableFamily(rep, r, f, cfg, ty, round)
+				c10RemoveFamily(rep, r, f, cfg, ty, round)
+			}
+		}
+	}
+}
+
 func runC10(rep *vh.Report, r *vh.Rng, n int, thorough bool) {
 	dir := "."
 	for i, a := range os.Args {
@@ -851,6 +1131,9 @@ func runC10(rep *vh.Report, r *vh.Rng, n int, thorough bool) {
 		}
 		e.finish(fmt.Sprintf("sc%d store=%s type=%s %d ops", sc, cfg, ttCfg[ty], len(e.ops)))
 	}
+
+	// every token type x store kind: maintenance in the middle of a consistent history
+	c10MaintenanceFamilies(rep, vh.NewRng(r.U64()), f, thorough)
 
 	// exhaustive interleavings
 	exhaustive := func(name string, mk func(r *vh.Rng) ([]ccall, *ccall), counts []int, limit int) {
